@@ -148,9 +148,18 @@ func (s *Server) InsertMomentum(detailed *nom.DetailedMomentum) {
 		s.log.Error("can't insert momentum for broadcast", "reason", "channel is full", "momentum-identifier", detailed.Momentum.Identifier())
 	}
 
+	// the blocks a contract generated are listed in the momentum themselves and as descendants of the
+	// contract's receive block: every block is announced once
 	abEvents := make([]*AccountBlock, 0, len(detailed.AccountBlocks))
+	announced := make(map[types.Hash]struct{}, len(detailed.AccountBlocks))
 	for _, block := range detailed.AccountBlocks {
-		abEvents = append(abEvents, newAccountBlock(block)...)
+		for _, event := range newAccountBlock(block) {
+			if _, ok := announced[event.Hash]; ok {
+				continue
+			}
+			announced[event.Hash] = struct{}{}
+			abEvents = append(abEvents, event)
+		}
 	}
 	select {
 	case s.acCh <- abEvents:
